@@ -765,7 +765,7 @@ fn advance_one(p: &Program, s0: &MState, t: usize, evs: &[&Event], out: &mut BTr
                 // only destructor / extra events may follow
                 if ei < evs.len() {
                     let e = evs[ei];
-                    if matches!(e.kind.as_str(), "D" | "Y" | "T" | "DA" | "LD" | "SD") {
+                    if matches!(e.kind.as_str(), "D" | "Y" | "T" | "DA" | "LD" | "SD" | "C") {
                         stack.push((s.clone(), ei + 1, started_here));
                     }
                     continue;
@@ -788,6 +788,7 @@ fn advance_one(p: &Program, s0: &MState, t: usize, evs: &[&Event], out: &mut BTr
                             stack.push((s.clone(), ei + 1, started_here));
                         }
                     }
+                    "C" => stack.push((s.clone(), ei + 1, started_here)),
                     "S" => {
                         // the label must denote the next operation of the body
                         let labels = p.labels(t);
@@ -854,7 +855,7 @@ fn advance_one(p: &Program, s0: &MState, t: usize, evs: &[&Event], out: &mut BTr
                             }
                             continue;
                         }
-                        "Y" | "P" | "F" | "T" | "D" | "DA" | "LD" | "SD" => {
+                        "Y" | "P" | "F" | "T" | "D" | "DA" | "LD" | "SD" | "C" => {
                             stack.push((s.clone(), ei + 1, started_here));
                             continue;
                         }
